@@ -159,8 +159,8 @@ CanonStep(w, u, acc, i) ==
 
 Canon(w, u) == FoldLeftDomain(LAMBDA acc, i : CanonStep(w, u, acc, i), [next |-> 1, items |-> <<>>], u).items
 
-IsWellFormed(w, u) == \A k \in DOMAIN Canon(w, u) : Canon(w, u)[k].ok
 AllValid(items)    == \A k \in DOMAIN items : items[k].ok
+IsWellFormed(w, u) == AllValid(Canon(w, u))
 CpsOf(items)       == [k \in DOMAIN items |-> items[k].cp]
 
 \* number of consecutive bad units starting at unit i (i is a scan point)
